@@ -2799,7 +2799,10 @@ func (s *Server) serveConnCounted(c net.Conn, countConcurrency bool) error {
 	if bw != nil {
 		releaseWriter(s, bw)
 	}
-	if hijackHandler == nil {
+	if hijackHandler == nil || err != errHijacked {
+		// Without a hand-over to the hijack handler (the response closes the
+		// connection, or writing it failed) nobody else owns ctx: release it,
+		// so that the request's resources (multipart temporary files) go.
 		s.releaseCtx(ctx)
 	}
 
